@@ -33,6 +33,14 @@ type Case struct {
 	// applied to first (generated service constructors pass one option list to
 	// every procedure of the service).
 	Reuse int `json:"reuse"`
+	// ReuseFrom: the other clients/handlers get only the option values from
+	// this top-level position on (the same values, preceded by fewer
+	// interceptors than in the list under test).
+	ReuseFrom int `json:"reuse_from,omitempty"`
+	// Again: 1-based top-level position of an option value that appears a
+	// second time at the end of the list (0: none); its interceptors then wrap
+	// twice, as listed.
+	Again int `json:"again,omitempty"`
 }
 
 type evlog struct {
@@ -260,15 +268,35 @@ func check(tt *testing.T, c Case) (pbt.Info, error) {
 	cfg := prog.Config{Protocol: c.Protocol, Codec: "proto", Kind: c.Kind}
 	var hopts []connect.HandlerOption
 	copts := cfg.ClientOptions()
+	from := 0
+	if c.ReuseFrom > 0 && c.ReuseFrom < len(c.Tree) && c.Reuse > 0 {
+		from = c.ReuseFrom
+		info.Label("option-values-reused-behind-a-shorter-prefix")
+	}
+	again := 0
+	if c.Again >= 1 && c.Again <= len(c.Tree) {
+		again = c.Again
+		info.Label("option-value-listed-twice")
+		more, _, _, _ := flatten(c.Tree[again-1 : again])
+		ids = append(ids, more...)
+	}
 	if c.Side == "client" {
+		base := len(copts)
 		copts = append(copts, clientOpts(c.Tree, log)...)
+		if again > 0 {
+			copts = append(copts, copts[base+again-1])
+		}
 		for i := 0; i < c.Reuse; i++ {
-			_ = connect.NewClient[pingv1.PingRequest, pingv1.PingResponse](&memnet.Mem{}, prog.BaseURL+fmt.Sprintf("/verif.v1.Svc/Other%d", i), copts...)
+			other := append(append([]connect.ClientOption(nil), copts[:base]...), copts[base+from:]...)
+			_ = connect.NewClient[pingv1.PingRequest, pingv1.PingResponse](&memnet.Mem{}, prog.BaseURL+fmt.Sprintf("/verif.v1.Svc/Other%d", i), other...)
 		}
 	} else {
 		hopts = handlerOpts(c.Tree, log)
+		if again > 0 {
+			hopts = append(hopts, hopts[again-1])
+		}
 		for i := 0; i < c.Reuse; i++ {
-			_ = prog.NewHandlerAt(fmt.Sprintf("/verif.v1.Svc/Other%d", i), c.Kind, &prog.HandlerProg{}, &prog.HLog{}, hopts...)
+			_ = prog.NewHandlerAt(fmt.Sprintf("/verif.v1.Svc/Other%d", i), c.Kind, &prog.HandlerProg{}, &prog.HLog{}, hopts[from:]...)
 		}
 	}
 	if c.Reuse > 0 {
@@ -397,6 +425,12 @@ func gen(t *rapid.T) Case {
 		Reuse:    rapid.SampledFrom([]int{0, 0, 1, 2}).Draw(t, "reuse"),
 	}
 	c.SharedBacking = rapid.Bool().Draw(t, "sharedBacking")
+	if c.Reuse > 0 {
+		c.ReuseFrom = rapid.IntRange(0, 2).Draw(t, "reuseFrom")
+	}
+	if rapid.IntRange(0, 4).Draw(t, "again") == 0 {
+		c.Again = rapid.IntRange(1, 4).Draw(t, "againAt")
+	}
 	next := 0
 	k := rapid.IntRange(1, 4).Draw(t, "ntop")
 	for i := 0; i < k; i++ {
@@ -407,7 +441,7 @@ func gen(t *rapid.T) Case {
 
 var spec = pbt.Spec[Case]{
 	Prop: "C16", Name: "trees", Gen: gen, Check: check,
-	Rule: "rapid-generated option trees: up to 6 labelled interceptors (nil entries anywhere) spread over WithInterceptors groups nested up to depth 3 inside WithOptions / WithClientOptions / WithHandlerOptions, interleaved with empty WithInterceptors() and unrelated options; the groups are either separate slices or sub-slices list[a:b] of one backing array with spare capacity; the same option values optionally applied to 1–2 other clients/handlers first (as generated constructors do); × {client, handler} × 4 RPC kinds × 3 protocols; oracle: reference model = flat concatenation minus nils, checked on an event log (request/Send order 1..m, response/Receive completion order m..1, each interceptor wraps once); non-trivial = ≥2 effective interceptors AND (≥2 groups OR nesting OR a nil entry)",
+	Rule: "rapid-generated option trees: up to 6 labelled interceptors (nil entries anywhere) spread over WithInterceptors groups nested up to depth 3 inside WithOptions / WithClientOptions / WithHandlerOptions, interleaved with empty WithInterceptors() and unrelated options; the groups are either separate slices or sub-slices list[a:b] of one backing array with spare capacity; the same option values optionally applied to 1–2 other clients/handlers first (as generated constructors do), the whole list or only a suffix of it (so the shared values follow fewer interceptors there); optionally one option value listed a second time; × {client, handler} × 4 RPC kinds × 3 protocols; oracle: reference model = flat concatenation minus nils, checked on an event log (request/Send order 1..m, response/Receive completion order m..1, each interceptor wraps once); non-trivial = ≥2 effective interceptors AND (≥2 groups OR nesting OR a nil entry)",
 }
 
 func TestTrees(t *testing.T) { pbt.Run(t, spec) }
